@@ -123,8 +123,10 @@ rc::Gen<data_spec_t> gen_c10_data(int min_samples)
     o.max_inputs  = 8;
     o.target_kind = 1; // scalar float64 target, re-shaped below to 1..3 outputs
     o.value_range = 3.0;
-    return rc::gen::map(rc::gen::tuple(gen_data(o), gen::range<int>(1, 3), gen::range<int>(0, 2)),
-                        [](const std::tuple<data_spec_t, int, int>& t)
+    // per-feature units: float64 features are multiplied by an exact power of two (small units such as 2^-30 included)
+    const auto units = rc::gen::container<std::vector<int>>(9, rc::gen::element(0, 0, 0, 0, -10, -20, -30, -40, 5));
+    return rc::gen::map(rc::gen::tuple(gen_data(o), gen::range<int>(1, 3), gen::range<int>(0, 2), units),
+                        [](const std::tuple<data_spec_t, int, int, std::vector<int>>& t)
                         {
                             auto      d      = std::get<0>(t);
                             const int k      = std::get<1>(t);
@@ -145,6 +147,14 @@ rc::Gen<data_spec_t> gen_c10_data(int min_samples)
                                         if (std::fabs(v) > 300.0)
                                         {
                                             v = (v < 0 ? -1.0 : 1.0) * (128.0 + std::fmod(std::fabs(v), 128.0));
+                                        }
+                                    }
+                                    if (d.types[static_cast<size_t>(f)] == static_cast<int>(nano::feature_type::float64))
+                                    {
+                                        const auto unit = std::ldexp(1.0, std::get<3>(t)[static_cast<size_t>(f) % 9]);
+                                        for (auto& v : d.values[static_cast<size_t>(f)])
+                                        {
+                                            v *= unit;
                                         }
                                     }
                                 }
